@@ -195,7 +195,7 @@ func runC01(c *Ctx) {
 				// the call must dominate every other instruction that can compute with the parameters
 				first := dominatesAllReturns(call)
 				c.Check(first, "guard-first:"+shortFn(fn), "the validity test dominates every return of Pace", "dominates all returns", "some return is not dominated by the validity test", c.at(call))
-			} else {
+			} else if !c01GuardHelper(c, fn, rPol) {
 				c.Undecided(key, rPol, "Pace neither compares a Rate's Freq/Per with 0 nor calls invalid(): unrecognised validity idiom", c.fnAt(fn))
 			}
 			continue
@@ -480,6 +480,126 @@ type rateGuard struct {
 }
 
 // rateGuards finds comparisons of a Rate's Freq/Per field (loaded from the receiver) with constant 0.
+// c01GuardHelper accepts the zero/negative tests living in a same-package helper
+// `func (r Rate) degenerate() (stop, ok bool)` used as `if stop, ok := r.degenerate(); ok { return 0, stop }`.
+func c01GuardHelper(c *Ctx, fn *ssa.Function, rPol string) bool {
+	var call *ssa.Call
+	var h *ssa.Function
+	eachInstr(fn, func(i ssa.Instruction) {
+		cl, ok := i.(*ssa.Call)
+		if !ok || call != nil {
+			return
+		}
+		f := cl.Call.StaticCallee()
+		if f == nil || f.Pkg != fn.Pkg || len(f.Blocks) == 0 || f.Signature.Results().Len() != 2 || len(rateGuards(f)) == 0 {
+			return
+		}
+		call, h = cl, f
+	})
+	if call == nil {
+		return false
+	}
+	c.Saw("function " + shortFn(h))
+	var ex [2]*ssa.Extract
+	for _, r := range refs(call) {
+		if e, ok := r.(*ssa.Extract); ok && e.Index < 2 {
+			ex[e.Index] = e
+		}
+	}
+	// which result is branched on in Pace
+	okIdx := -1
+	var ifi *ssa.If
+	for k := 0; k < 2; k++ {
+		if ex[k] != nil {
+			if i := trueImpliesIf(ex[k]); i != nil {
+				okIdx, ifi = k, i
+			}
+		}
+	}
+	base := "guard-polarity:" + shortFn(fn)
+	if okIdx < 0 || ex[1-okIdx] == nil {
+		c.Fail(base+":helper", rPol, "the validity helper's results do not control a branch of Pace", c.at(call))
+		return true
+	}
+	stopIdx := 1 - okIdx
+	// Pace: the ok edge returns (0, stop) straight away
+	okEdge := true
+	for i := range exploreBlock(ifi.Block().Succs[0], nil) {
+		switch x := i.(type) {
+		case *ssa.If:
+			okEdge = false
+		case *ssa.Return:
+			if w, isW := constInt(x.Results[0]); !isW || w != 0 || x.Results[1] != ssa.Value(ex[stopIdx]) {
+				okEdge = false
+			}
+		}
+	}
+	c.Check(okEdge, base+":helper", rPol, "degenerate rate ⇒ return (0, stop) with the helper's verdict", "the branch taken for a degenerate rate does not return (0, stop) with the helper's verdict", c.at(call))
+	// helper: four guards with the right constants; everything else reports ok=false
+	guards := rateGuards(h)
+	have := map[string]bool{}
+	guarded := map[ssa.Instruction]bool{}
+	for _, g := range guards {
+		have[g.field+g.op] = true
+		key := fmt.Sprintf("%s:%s%s0", base, g.field, g.op)
+		wantStop := g.op == "<"
+		gi := implIf(g.cmp, true, 0)
+		okG := gi != nil
+		det := "the comparison does not control a branch"
+		if okG {
+			set := exploreBlock(gi.Block().Succs[0], nil)
+			for i := range set {
+				switch x := i.(type) {
+				case *ssa.If:
+					okG, det = false, "the guarded edge branches again before returning"
+				case *ssa.Return:
+					guarded[x] = true
+					st, isS := constBool(x.Results[stopIdx])
+					ok2, isO := constBool(x.Results[okIdx])
+					if !isS || !isO || !ok2 || st != wantStop {
+						okG, det = false, fmt.Sprintf("the guarded edge reports stop=%v ok=%v, want stop=%v ok=true", st, ok2, wantStop)
+					}
+				}
+			}
+		}
+		c.Check(okG, key, rPol, fmt.Sprintf("helper reports stop=%v", wantStop), det, c.at(g.cmp))
+	}
+	for _, need := range []string{"Per==", "Freq==", "Per<", "Freq<"} {
+		if !have[need] {
+			c.Fail(fmt.Sprintf("%s:%s0", base, need), rPol, "guard "+need+"0 is missing", c.fnAt(h))
+		}
+	}
+	okRest := true
+	eachInstr(h, func(i ssa.Instruction) {
+		if r, isR := i.(*ssa.Return); isR && !guarded[r] {
+			if v, isC := constBool(r.Results[okIdx]); !isC || v {
+				okRest = false
+			}
+		}
+	})
+	c.Check(okRest, base+":helper-default", rPol, "a finite positive rate is reported as not degenerate", "the helper reports a valid rate as degenerate (or its verdict is not constant)", c.fnAt(h))
+	// guards first: arithmetic only where the helper said "not degenerate"
+	const rFirst = "every integer division/multiplication in Pace executes only after all zero/negative guards have been evaluated false"
+	okFirst := true
+	n := 0
+	eachInstr(fn, func(i ssa.Instruction) {
+		if bo, ok := i.(*ssa.BinOp); ok && isInteger(bo.Type()) && (bo.Op == token.QUO || bo.Op == token.REM || bo.Op == token.MUL) {
+			n++
+			known := false
+			for _, f := range factsAt(bo.Block()) {
+				if f.Cond == ssa.Value(ex[okIdx]) && !f.Val {
+					known = true
+				}
+			}
+			if !known {
+				okFirst = false
+			}
+		}
+	})
+	c.Check(okFirst, "guard-first:"+shortFn(fn), rFirst, fmt.Sprintf("%d arithmetic sites after the helper's verdict", n), "integer arithmetic runs before the validity helper's verdict is known", c.at(call))
+	return true
+}
+
 func rateGuards(fn *ssa.Function) []rateGuard {
 	var out []rateGuard
 	eachInstr(fn, func(i ssa.Instruction) {
